@@ -681,4 +681,42 @@ Proof.
     + apply HC; auto.
 Qed.
 
+(* ---------- local events never produce a protected effect and never touch the auth state ---------- *)
+
+Lemma local_spawn_noprot : forall st pid r, noprot (snd (local_spawn st pid r)).
+Proof.
+  intros; unfold local_spawn. destruct (a_is_ok (s_auth st) && r); simpl; auto with np.
+Qed.
+
+Lemma local_terminate_noprot : forall st pid r, noprot (snd (local_terminate st pid r)).
+Proof.
+  intros; unfold local_terminate. destruct (a_is_ok (s_auth st) && r); simpl; auto with np.
+Qed.
+
+Lemma local_spawn_auth : forall st pid r, s_auth (fst (local_spawn st pid r)) = s_auth st.
+Proof. intros; unfold local_spawn; destruct (a_is_ok (s_auth st) && r); reflexivity. Qed.
+
+Lemma local_terminate_auth : forall st pid r, s_auth (fst (local_terminate st pid r)) = s_auth st.
+Proof. intros; unfold local_terminate; destruct (a_is_ok (s_auth st) && r); reflexivity. Qed.
+
+(* before authentication a local event does not change the advertised set either *)
+Lemma local_spawn_unauth : forall st pid r,
+  a_is_ok (s_auth st) = false -> local_spawn st pid r = (st, []).
+Proof. intros st pid r H; unfold local_spawn; rewrite H; reflexivity. Qed.
+
+Definition in_log_gate (x : sstate * input * list effect) : Prop :=
+  let '(st, _, eff) := x in existsb protected eff = true -> a_is_ok (s_auth st) = true.
+
+Theorem run_in_gate : forall cfg l st, Forall in_log_gate (run_in_log dg cfg st l).
+Proof.
+  intros cfg l; induction l as [|i r IH]; intros st; simpl; [constructor|].
+  assert (G : existsb protected (snd (step_in dg cfg st i)) = true -> a_is_ok (s_auth st) = true).
+  { destruct i as [m e|pid rr|pid rr]; simpl.
+    - apply handle_gate'.
+    - intros H. rewrite (local_spawn_noprot st pid rr) in H. discriminate.
+    - intros H. rewrite (local_terminate_noprot st pid rr) in H. discriminate. }
+  destruct (step_in dg cfg st i) as [st' eff]; simpl in *.
+  constructor; [exact G|apply IH].
+Qed.
+
 End GateProofs.
